@@ -65,6 +65,7 @@ impl MerkleProof {
     ///
     /// This function will return an error if:
     ///  - provided leaf is different than the one for which proof was created
+    ///  - leaf index is not smaller than the leaves count
     ///  - proof is malformed, meaning some inconsistency between leaf index, leaves count,
     ///    or amount of inner nodes
     ///  - the recomputed root hash differs from expected one
@@ -74,6 +75,15 @@ impl MerkleProof {
 
         if leaf != self.leaf_hash {
             return Err(verification_error!("proof created for a different leaf").into());
+        }
+
+        if self.index >= self.total {
+            return Err(verification_error!(
+                "leaf index ({}) out of range, proof is for {} leaves",
+                self.index,
+                self.total
+            )
+            .into());
         }
 
         let computed_root = subtree_root_from_aunts(self.index, self.total, leaf, &self.aunts)?;
